@@ -25,6 +25,19 @@ fn serialise(blocks: &[Block]) -> Result<Vec<u8>, String> {
     Ok(v)
 }
 
+fn body_size(b: &Block) -> Option<u32> {
+    match b {
+        Block::Streaminfo(x) => x.bytes(),
+        Block::Padding(x) => x.bytes(),
+        Block::Application(x) => x.bytes(),
+        Block::SeekTable(x) => x.bytes(),
+        Block::VorbisComment(x) => x.bytes(),
+        Block::Cuesheet(x) => x.bytes(),
+        Block::Picture(x) => x.bytes(),
+    }
+    .map(u32::from)
+}
+
 fn total_size(b: &Block) -> Option<u32> {
     match b {
         Block::Streaminfo(x) => x.total_size(),
@@ -462,9 +475,43 @@ pub fn run_c11(ctx: &mut Ctx) -> R {
         let si = blocks[0].clone();
         blocks.push(si);
     }
+    // rarely a block of the largest size the 24-bit length field can state, or a byte or two less
+    let huge = !break_rules && ch.draw("c11.huge", 250) == 0;
+    if huge {
+        let body = (1usize << 24) - 1 - ch.draw("c11.huge.below", 7) as usize;
+        let b: Block = match ch.draw("c11.huge.kind", 4) {
+            0 => Padding { size: (body as u32).try_into().unwrap() }.into(),
+            1 => Application { id: 0x68756765, data: vec![0x5A; body - 4] }.into(),
+            2 => {
+                // body = 4 + vendor + 4 + (4 + field)
+                let vendor = "v".to_string();
+                VorbisComment { vendor_string: vendor.clone(), fields: vec![format!("BIG={}", "b".repeat(body - 4 - vendor.len() - 4 - 4 - 4))] }.into()
+            }
+            _ => {
+                // body = 4 + 4 + mime + 4 + description + 16 + 4 + data
+                let (mime, desc) = ("image/png".to_string(), "d".to_string());
+                Picture {
+                    picture_type: PictureType::Other,
+                    media_type: mime.clone(),
+                    description: desc.clone(),
+                    width: 1,
+                    height: 1,
+                    color_depth: 24,
+                    colors_used: None,
+                    data: vec![0xA7; body - 32 - mime.len() - desc.len()],
+                }
+                .into()
+            }
+        };
+        // keep the single-instance rules: replace a block of the same kind if there is one
+        blocks.retain(|x| std::mem::discriminant(x) != std::mem::discriminant(&b) || matches!(x, Block::Padding(_) | Block::Application(_)));
+        blocks.push(b);
+        probe("c11_block_at_24bit_size_limit");
+    }
     ctx.describe(|| format!("blocks: {:?} break_rules={break_rules}", blocks.iter().map(|b| format!("{}", b.block_type())).collect::<Vec<_>>()));
-    let wben = Benign::draw(&ch);
-    let rben = Benign::draw(&ch);
+    // megabytes through one-byte transfers would only spend the event budget
+    let wben = if huge { Benign::none() } else { Benign::draw(&ch) };
+    let rben = if huge { Benign::none() } else { Benign::draw(&ch) };
     let file = ctx.disk.create(Vec::new());
     let mut sink = wrap_sink(ctx.disk.open(file, wben), *ch.pick("c11.wcap", &[0usize, 0, 3, 100]));
     let wr = catch_unwind(AssertUnwindSafe(|| {
@@ -522,7 +569,14 @@ pub fn run_c11(ctx: &mut Ctx) -> R {
     }
     for (i, (b, rb)) in blocks.iter().zip(&m.blocks).enumerate() {
         let ts = total_size(b);
-        if ts != Some(rb.len as u32 + 4) {
+        // `total_size` answers in the 24-bit size type: a block whose body is within 4 bytes of the limit
+        // has no representable total (None); its body size must still be reported exactly
+        if rb.len + 4 > (1 << 24) - 1 {
+            if ts.is_some() || body_size(b) != Some(rb.len as u32) {
+                return viol("meta-mismatch", format!("block {i} ({}) reports bytes {:?} / total_size {:?} but its body occupies {} bytes on the medium", b.block_type(), body_size(b), ts, rb.len));
+            }
+            probe("c11_total_size_not_representable");
+        } else if ts != Some(rb.len as u32 + 4) || body_size(b) != Some(rb.len as u32) {
             return viol("meta-mismatch", format!("block {i} ({}) reports total_size {:?} but occupies {} bytes on the medium", b.block_type(), ts, rb.len + 4));
         }
     }
